@@ -1147,6 +1147,12 @@ func (e *Engine) call(s *State, f *Frame, cc *ssa.CallCommon, x ssa.Value, defer
 			fv = e.get(s, f, v).(FuncV)
 		}
 		fn, bind = fv.Fn, fv.Bind
+		if fn == nil && fv.Unknown != "" {
+			if r := e.unknownCall(s, "funcvalue:"+fv.Unknown, fv.Sig, nil, args); r != nil {
+				f.env[x] = r
+			}
+			return true
+		}
 		if fn == nil {
 			e.oblig(s, "safe.nil.funcvalue", boolT(false))
 			s.dead, s.done = true, true
